@@ -65,11 +65,15 @@ def make_dialect(i, spec, drop=()):
 
 DIALECTS = {int(i): make_dialect(int(i), s) for i, s in SPEC["dialects"].items()}
 if TWINSPEC is None:
-    TWIN = None
+    # the family as the user wrote it: its classes may have a default dialect of their own
+    TWIN = DIALECTS[int(SPEC["base_dialect"])] if SPEC.get("base_dialect") is not None else None
 elif TWINSPEC[0] == "idx":
     TWIN = DIALECTS[TWINSPEC[1]]
-else:                                          # ("mod", i, [dropped options])
-    TWIN = make_dialect(TWINSPEC[1], SPEC["dialects"][str(TWINSPEC[1])], drop=tuple(TWINSPEC[2]))
+else:                                          # ("mod", i, ((option, replacement value or None), ...))
+    _s = dict(SPEC["dialects"][str(TWINSPEC[1])])
+    for _o, _v in TWINSPEC[2]:
+        _s[_o] = _v
+    TWIN = make_dialect(TWINSPEC[1], _s)
 
 
 def make_config(cfg, support=True):
